@@ -293,6 +293,22 @@ pub fn pbkdf2_with(name: &str, pw: &[u8], salt: &[u8], c: u32, out: &mut [u8]) {
     }
     digest_dispatch!(name, go)
 }
+/// two derivations on ONE Mac object (pbkdf2 takes `&mut M`): the second must not depend on what the first left behind
+pub fn pbkdf2_twice_with(name: &str, pw: &[u8], salt1: &[u8], c1: u32, out1: &mut [u8], salt2: &[u8], c2: u32, out2: &mut [u8]) {
+    if let Some(n) = name.strip_prefix("b2bmac:") {
+        let mut m = cryptoxide::blake2b::Blake2b::new_keyed(usz(n), pw);
+        cryptoxide::pbkdf2::pbkdf2(&mut m, salt1, c1, out1);
+        return cryptoxide::pbkdf2::pbkdf2(&mut m, salt2, c2, out2);
+    }
+    macro_rules! go {
+        ($e:expr) => {{
+            let mut m = Hmac::new($e, pw);
+            cryptoxide::pbkdf2::pbkdf2(&mut m, salt1, c1, out1);
+            cryptoxide::pbkdf2::pbkdf2(&mut m, salt2, c2, out2)
+        }};
+    }
+    digest_dispatch!(name, go)
+}
 /// "soil/<data>[/fin]" : the digest object handed to HKDF has already absorbed <data> (and, with ":fin", has been finalised)
 pub fn parse_soil(arg: Option<&&str>) -> Option<(Vec<u8>, bool)> {
     let a = arg?;
